@@ -295,3 +295,41 @@ pub fn try_extract_signature_id_from_field(
         _ => None,
     }
 }
+
+#[cfg(feature = "verif-hooks")]
+impl LuaPropertyIndex {
+    pub(crate) fn verif_sizes(&self) -> Vec<(&'static str, usize)> {
+        vec![
+            ("properties", self.properties.len()),
+            ("property_owners_map", self.property_owners_map.len()),
+            (
+                "property_owners_map.dangling",
+                self.property_owners_map
+                    .values()
+                    .filter(|id| !self.properties.contains_key(*id))
+                    .count(),
+            ),
+            ("in_filed_owner", self.in_filed_owner.len()),
+            (
+                "in_filed_owner.owners",
+                self.in_filed_owner.values().map(|v| v.len()).sum(),
+            ),
+        ]
+    }
+
+    pub(crate) fn verif_file_refs(&self, file_id: FileId) -> Vec<(&'static str, usize)> {
+        vec![
+            (
+                "property_owners_map",
+                self.property_owners_map
+                    .keys()
+                    .filter(|o| o.get_file_id() == Some(file_id))
+                    .count(),
+            ),
+            (
+                "in_filed_owner",
+                self.in_filed_owner.contains_key(&file_id) as usize,
+            ),
+        ]
+    }
+}
